@@ -131,6 +131,76 @@ func labelFromRequest(c *core.Ctx, fn *ssa.Function, v ssa.Value, want string, d
 		}
 		return false
 	}
+	if depth < 2 && an.PrivateHelper(fn) && fn.Signature.Recv() != nil && strings.HasPrefix(ap, "recv.") && !strings.ContainsAny(ap[5:], ".[(") {
+		// a field of the receiver of a small reply-building value (`reqResult{subID, events}.replies()`):
+		// what every call site's receiver holds in that field — read off its literal, or off every
+		// return of the private function that built it
+		field := ap[5:]
+		okCaller := func(g *ssa.Function, full string) bool {
+			m := labelRe.FindStringSubmatch(full)
+			if m == nil || m[2] != want {
+				return false
+			}
+			groot := g
+			for groot.Parent() != nil {
+				groot = groot.Parent()
+			}
+			for _, f := range []*ssa.Function{g, groot} {
+				for _, p := range f.Params {
+					if tn := typeNameOf(p.Type()); p.Name() == m[1] && (tn == "ClientMsg" || strings.HasPrefix(tn, "Client")) {
+						return true
+					}
+				}
+			}
+			return false
+		}
+		sites := 0
+		for _, g := range libFuncs(c) {
+			for _, site := range callsTo(g, fn) {
+				sites++
+				recvArg := site.Call.Args[0]
+				inner := an.CallOf(recvArg)
+				if fs, ok := an.LitFields(an.PathOf(recvArg)); ok && inner == nil {
+					if !okCaller(g, fs[field]) {
+						return false
+					}
+					continue
+				}
+				if inner == nil {
+					return false
+				}
+				h := an.StaticCallee(&inner.Call)
+				if !an.PrivateHelper(h) {
+					return false
+				}
+				// the field's index in the struct the helper returns
+				rt := h.Signature.Results().At(0).Type()
+				if pt, isPtr := rt.Underlying().(*types.Pointer); isPtr {
+					rt = pt.Elem()
+				}
+				stt, isStruct := rt.Underlying().(*types.Struct)
+				if !isStruct {
+					return false
+				}
+				fi := -1
+				for i := 0; i < stt.NumFields(); i++ {
+					if an.FieldNameHook(stt, i) == field {
+						fi = i
+					}
+				}
+				paths, okp := an.ResultFieldPathsStrict(inner, fi)
+				if fi < 0 || !okp || len(paths) == 0 {
+					return false
+				}
+				for _, pth := range paths {
+					if !okCaller(g, pth) {
+						return false
+					}
+				}
+			}
+		}
+		return sites > 0
+	}
 	par, isPar := an.Unwrap(v).(*ssa.Parameter)
 	if !isPar && depth < 2 && an.PrivateHelper(fn) && strings.HasPrefix(ap, "p:") {
 		// a field of a parameter of a private helper (`storeVerdict(ev *Event)` labelling with ev.ID): the
